@@ -451,3 +451,112 @@ def rule_fp_exec(ctx, R, F, F_host=None):
             cs = [c for c in astq.calls(g['body']) if 'shuf' in (c.get('name') or '')]
             ok = len(cs) == 1 and len(cs[0]['a']) == 3 and val(cs[0]['a'][2]) == 1 and show(strip_all(cs[0]['a'][0])) == show(strip_all(cs[0]['a'][1]))
             R.check(ok, 'host wrapper rx_swap_vec_f128', '%s:%d' % (g['file'], g['line']), expected='shuffle(a, a, 1): the two lanes exchanged', found=[show(c)[:60] for c in cs])
+
+
+# ---------------------------------------------------------------------------------------------------------------------------
+# executeSuperscalar: the interpreter of SuperscalarHash programs
+
+class SsEval(Eval):
+    """r[instr.dst] = D, r[instr.src] = S; instr.getImm32() and getModShift() are constants of the case"""
+
+    def __init__(self, F, r_id, instr_id, shift, imm):
+        Eval.__init__(self, F, None, None, shift, 0)
+        self.r_id, self.instr_id, self.imm32 = r_id, instr_id, imm
+
+    def reg(self, n):
+        n = strip_all(n)
+        if n['k'] != 'Idx':
+            return None
+        b = strip_all(n['b'])
+        while b['k'] == 'Cast':
+            b = strip_all(b['e'])
+        i = strip_all(n['i'])
+        while i['k'] == 'Cast':
+            i = strip_all(i['e'])
+        if b['k'] == 'Ref' and b.get('id') == self.r_id and i['k'] == 'Mem' and strip_all(i['b']).get('id') == self.instr_id and i.get('m') in ('dst', 'src'):
+            return 'idst' if i['m'] == 'dst' else 'isrc'
+        return None
+
+    def ev(self, n):
+        m = strip_all(n)
+        while m['k'] == 'Cast' and m.get('ck') != 'IntegralCast':
+            m = strip_all(m['e'])
+        if m['k'] == 'Idx':
+            r = self.reg(m)
+            if r is None:
+                raise Undecided('element %s' % show(m)[:50])
+            return self.mem[r]
+        if m['k'] == 'Call':
+            nm = m.get('name')
+            if nm == 'getImm32':
+                return const(self.imm32)
+            if nm == 'getModShift':
+                return const(self.shift)
+            if nm == 'signExtend2sCompl':
+                a = self.ev(m['a'][0])
+                if not a.is_const():
+                    raise Undecided('sign extension of a non-constant')
+                v = a.c & 0xffffffff
+                return const(v | (0xffffffff00000000 if v >> 31 else 0))
+        return Eval.ev(self, n)
+
+    def exec_stmt(self, s):
+        top = strip_all(s)
+        if top['k'] in ('Assign', 'CAssign'):
+            r = self.reg(top['l'])
+            if r is None:
+                raise Undecided('assignment to %s' % show(top['l'])[:50])
+            v = self.ev(top['r'])
+            if top['k'] == 'CAssign':
+                op = top['op'][:-1]
+                fn = {'+': add, '-': sub, '*': mul, '^': xor}.get(op)
+                if fn is None:
+                    raise Undecided('compound assignment %s' % top['op'])
+                v = fn(self.mem[r], v)
+            self.mem[r] = v
+            return
+        raise Undecided('statement %s' % show(top)[:60])
+
+
+def rule_ss_exec_terms(ctx, R, F, cases, f):
+    """term-level replacement for the per-kind statement comparison of SS-EXEC (all kinds except IMUL_RCP, whose two arms are compared by the caller)"""
+    from rules import x86hsem as X
+    r_id = f['params'][0]['id']
+    instr_id = None
+    for x in walk(f['body']):
+        if x['k'] == 'Decl':
+            for d in x['d']:
+                if 'randomx::Instruction' in (d.get('ty') or ''):
+                    instr_id = d['id']
+    if instr_id is None:
+        raise AnalysisBroken('SS-EXEC: the Instruction local of executeSuperscalar was not found')
+    where = '%s:%d' % (f['file'], f['line'])
+    for name in sorted(cases):
+        if name in ('default', 'IMUL_RCP'):
+            continue
+        stmts = [s for s in cases[name] if s['k'] != 'Break']
+        for sh in ((0, 1, 2, 3) if name == 'IADD_RS' else (0,)):
+            imms = (1, 31, 63) if name == 'IROR_C' else ((0, 1, 0x7FFFFFFF, 0x80000000, 0xFFFFFFFF, 0x12345678) if name[:6] in ('IADD_C', 'IXOR_C') else (0x12345678,))
+            for imm in imms:
+                e = SsEval(F, r_id, instr_id, sh, imm)
+                try:
+                    for s_ in stmts:
+                        e.exec_stmt(s_)
+                except Undecided as u:
+                    raise AnalysisBroken('SS-EXEC: %s: %s is outside the evaluated subset' % (name, u))
+                exp = X.ss_expected(name, 0, 1, sh, imm)
+                got_d, got_s = e.mem['idst'], e.mem['isrc']
+                bad = None
+                for what, g_, e_ in (('r[dst]', got_d, exp[0]), ('r[src]', got_s, exp[1])):
+                    if g_ != e_:
+                        differs = None
+                        for vals in T.VALUATIONS:
+                            a_, b_ = T.term_eval(g_.canon(), vals), T.term_eval(e_.canon(), vals)
+                            if a_ != b_:
+                                differs = (a_, b_)
+                                break
+                        if differs is None:
+                            raise AnalysisBroken('SS-EXEC: %s: %s is %s, Table 6.1.1 says %s; equivalence undecided' % (name, what, T.term_show(g_, None), T.term_show(e_, None)))
+                        bad = '%s = %s (Table 6.1.1: %s) with dst = r0, src = r1' % (what, T.term_show(g_, None), T.term_show(e_, None))
+                        break
+                R.check(bad is None, '%s semantics%s%s' % (name, ' shift=%d' % sh if name == 'IADD_RS' else '', ' imm32=%#x' % imm if len(imms) > 1 else ''), where, expected='as in Table 6.1.1', found=bad or 'as specified')
